@@ -1,0 +1,14 @@
+//go:build verif
+
+// verif_hooks_portmap.go: accessors into the portmapper for the external verification
+// harness (/verif, property C27). Compiled only with -tags verif; adds no behaviour.
+package absnfs
+
+import "net"
+
+// VerifHandleCall hands one RPC call record to the portmapper's dispatcher exactly as
+// handleConnection does after reading it from a connection whose peer is addr
+// (nil = in-process caller). The registry is read with the exported GetMappings.
+func (pm *Portmapper) VerifHandleCall(data []byte, addr net.Addr) ([]byte, error) {
+	return pm.handleCall(data, addr)
+}
